@@ -17,11 +17,12 @@ type Tier struct {
 }
 
 type gen struct {
-	r       *verifsim.SplitMix
-	nextRID uint64
-	nextBulk int
-	nowMs   uint64 // generator's idea of the simulated clock
-	docs    []*model.Doc
+	r         *verifsim.SplitMix
+	nextRID   uint64
+	nextBulk  int
+	nowMs     uint64 // generator's idea of the simulated clock
+	docs      []*model.Doc
+	smallDocs bool
 }
 
 func newGen(seed uint64, stream string) *gen {
@@ -39,6 +40,9 @@ func (g *gen) doc(ts uint64) *model.Doc {
 		d.Size = 1
 	case 1:
 		d.Size = g.r.Range(2000, 20000)
+		if g.smallDocs {
+			d.Size = g.r.Range(300, 600)
+		}
 	default:
 		d.Size = g.r.Range(30, 300)
 	}
@@ -280,6 +284,20 @@ func GenCase(property string, seed uint64, tier Tier) *Case {
 	switch property {
 	case "C01":
 		return genC01(seed, tier)
+	case "C03":
+		return genC03(seed, tier)
+	case "C07":
+		return genC07(seed, tier)
+	case "C08":
+		return genC08(seed, tier)
+	case "C14":
+		return genC14(seed, tier)
+	case "C15":
+		return genC15(seed, tier)
+	case "C17":
+		return genC17(seed, tier)
+	case "C19":
+		return genC19(seed, tier)
 	}
 	panic("no generator for " + property)
 }
